@@ -24,7 +24,7 @@ CLAIM = dict(
               "translator for dispatch tables, differential correspondence over a closed operand universe",
     design="7/C01")
 
-MODULES = ["Klong.Props.C01", "Klong.Props.C01Struct", "Klong.Props.C01Ext1", "Klong.Props.C01Ext2", "Klong.Props.C01Ext3"]
+MODULES = ["Klong.Props.C01", "Klong.Props.C01Struct", "Klong.Props.C01Ext1", "Klong.Props.C01Ext2", "Klong.Props.C01Ext3", "Klong.Props.C01Ext4"]
 THEOREMS = [
     "Klong.C01.atomic_dyad_correct",
     "Klong.C01.atomic_monad_correct",
@@ -44,6 +44,8 @@ THEOREMS += ["Klong.C01.Ext1.cut_correct", "Klong.C01.Ext1.cutSegs_correct", "Kl
 THEOREMS += ["Klong.C01.Ext2.expand_correct", "Klong.C01.Ext2.floor_correct", "Klong.C01.Ext2.transpose_correct", "Klong.C01.Ext2.grade_sorts", "Klong.C01.Ext2.grade_stable", "Klong.C01.Ext2.grade_unique", "Klong.C01.Ext2.grade_correct", "Klong.C01.Ext2.range_str_correct", "Klong.C01.Ext2.range_ints_correct", "Klong.C01.Ext2.range_rows_correct", "Klong.C01.Ext2.range_obj_correct", "Klong.C01.Ext2.range_kinds_kept", "Klong.C01.Ext2.range_chr_str_collision", "Klong.C01.Ext2.implGroupKeys_eq", "Klong.C01.Ext2.group_str_correct", "Klong.C01.Ext2.group_ints_correct", "Klong.C01.Ext2.group_spec", "Klong.C01.Ext2.shapeA_ref", "Klong.C01.Ext2.shape_correct", "Klong.C01.Ext2.shape_atom_correct", "Klong.C01.Ext2.shape_deviation", "Klong.C01.Ext2.npReshape_window", "Klong.C01.Ext2.reshape_correct"]
 
 THEOREMS += ["Klong.C01.Ext3.amend_list_correct", "Klong.C01.Ext3.amend_str_correct", "Klong.C01.Ext3.amend_in_depth_correct", "Klong.C01.Ext3.amend_in_depth_any_correct", "Klong.C01.Ext3.amend_in_depth_vec_correct", "Klong.C01.Ext3.aidRec_slow", "Klong.C01.Ext3.multiSet_nat", "Klong.C01.Ext3.shape_agree", "Klong.C01.Ext3.index_in_depth_correct", "Klong.C01.Ext3.divide_correct", "Klong.C01.Ext3.power_correct", "Klong.C01.Ext3.scalarPow_value", "Klong.C01.Ext3.reciprocal_correct", "Klong.C01.Ext3.char_correct", "Klong.C01.Ext3.undefined_correct", "Klong.C01.Ext3.format_correct", "Klong.C01.Ext3.pyInt_parseInt", "Klong.C01.Ext3.pyInt_noDigit", "Klong.C01.Ext3.form_atom_correct", "Klong.C01.Ext3.amend_examples_witness", "Klong.C01.Ext3.amend_members_witness", "Klong.C01.Ext3.amend_grow_witness", "Klong.C01.Ext3.amend_kind_witness", "Klong.C01.Ext3.amend_outside_witness", "Klong.C01.Ext3.depth_examples_witness", "Klong.C01.Ext3.depth_value_witness", "Klong.C01.Ext3.depth_repack_witness", "Klong.C01.Ext3.arith_witness", "Klong.C01.Ext3.power_nested_witness", "Klong.C01.Ext3.char_witness", "Klong.C01.Ext3.format_witness", "Klong.C01.Ext3.form_witness", "Klong.C01.Ext3.form_list_witness", "Klong.C01.Ext3.undefined_witness"]
+
+THEOREMS += ["Klong.C01.Ext4.format2_int_atom", "Klong.C01.Ext4.format2_real_atom", "Klong.C01.Ext4.format2_atom_correct", "Klong.C01.Ext4.implF2_eq", "Klong.C01.Ext4.format2_correct", "Klong.C01.Ext4.format2_length_witness", "Klong.C01.Ext4.floorInt_spec", "Klong.C01.Ext4.floor_real_correct", "Klong.C01.Ext4.cmp_agree", "Klong.C01.Ext4.cmpL_agree", "Klong.C01.Ext4.isort_congr", "Klong.C01.Ext4.gradeBy_agree", "Klong.C01.Ext4.grade_nested_correct", "Klong.C01.Ext4.refGrade_perm", "Klong.C01.Ext4.format2_examples_witness", "Klong.C01.Ext4.format2_outside_witness", "Klong.C01.Ext4.format2_extension_witness", "Klong.C01.Ext4.floor_witness", "Klong.C01.Ext4.grade_witness"]
 
 ATOMIC_DYADS = ["+", "-", "*", "&", "|", "<", ">", "=", "!", ":%", "%", "^"]
 STRUCT_DYADS = ["#", "_", ":+", ":#", ":_", "~", ",", "@", "?", ":^"]
@@ -298,6 +300,9 @@ def gen_cases(ctx):
     # ---- extension 3: Amend, Amend-in-Depth, Index-in-Depth, Divide/Power edges, Char, Format, Form
     from . import c01_ext3_cases
     cases += c01_ext3_cases.extra_cases(U, seqs)
+    # ---- extension 4: Format2, Floor of large values, Grade of nested lists
+    from . import c01_ext4_cases
+    cases += c01_ext4_cases.extra_cases(U, seqs)
     if quick:
         monads = [c for c in cases if c[0] == "M"]
         dyads = [c for c in cases if c[0] == "D"]
@@ -396,6 +401,8 @@ def classify_failure(c, ref, real):
     if (any(U.has_mixed_numeric_level(o) for o in ops) or mixed_numeric_array(ref)) \
             and real[0] != 'E' and U.veq(ref, real, kinds=False):
         return "mixed-numeric-level"
+    if verb == "$" and any(U.has_mixed_numeric_level(o) for o in ops) and real[0] != 'E':
+        return "mixed-numeric-level"      # the integers of the level are formatted as the reals they were stored as
     if ar == "D" and verb in (":=", ":-") and real[0] != 'E' and U.veq(ref, real, kinds=False):
         return "amend:integer-into-real-array"
     if ar == "D" and verb in (":=", ":-") and b[0] == 'L' and b[1] and b[1][0][0] == 'L' and real[0] != 'E':
